@@ -561,16 +561,62 @@ def r_nowrite_on_reject(F, R):
         tr = result_tree.get(fb)
         if tr is None:
             return False
+        from expr import nobb as _nb
         for f in facts_at(ctx, sb):
             if tr[0] == "bin" and f[0] == tr[1] and f[1] == tr[2] and f[2] == tr[3]:
                 return True
             if f[0] == "truthy" and f[1] == tr and f[2] is True:
                 return True
+            # `if let Some(n) = next { *self = n } next.is_some()`: the write sits on the Some edge of
+            # the very option whose is_some() is the result
+            if f[0] == "variant" and tr[0] == "call" and tr[1][1] in ("is_some", "is_ok") and tr[2] and not tr[3] and \
+                    _nb(f[1]) == _nb(tr[2][0]) and f[2] == ("1" if tr[1][1] == "is_some" else "0"):
+                return True
+        return False
+    def on_some_edge_of_result(sb, fb):
+        """the result is `x.is_some()` / `x.is_ok()` of a local option x computed at fb, and the
+        store at sb sits on the Some / Ok arm of a branch on that same local (nothing assigns x
+        in between): the write happens exactly when the result is true"""
+        t_ = b.term(fb)
+        if t_["k"] != "call" or callee_tag(t_.get("callee"))[1] not in ("is_some", "is_ok") or len(t_["args"]) != 1:
+            return False
+        want = "1" if callee_tag(t_.get("callee"))[1] == "is_some" else "0"
+        a_ = t_["args"][0]
+        xl = None
+        if a_["k"] in ("copy", "move") and not a_["place"]["p"]:
+            for st_ in b.blocks[fb]["stmts"]:
+                if st_["k"] == "assign" and st_["place"]["l"] == a_["place"]["l"] and st_["rv"]["k"] == "ref" and not st_["rv"]["place"]["p"]:
+                    xl = st_["rv"]["place"]["l"]
+        if xl is None:
+            return False
+        for s_ in b.live_blocks():
+            ts_ = b.term(s_)
+            if ts_["k"] != "switch" or ts_["discr"]["k"] not in ("copy", "move"):
+                continue
+            dl = ts_["discr"]["place"]["l"]
+            if not any(st_["k"] == "assign" and st_["place"]["l"] == dl and st_["rv"]["k"] == "discr" and
+                       st_["rv"]["place"]["l"] == xl and not st_["rv"]["place"]["p"] for st_ in b.blocks[s_]["stmts"]):
+                continue
+            arm = [tg for (v, tg) in ts_["arms"] if v == want]
+            def builds_variant(p_):
+                last = None
+                for st_ in b.blocks[p_]["stmts"]:
+                    if st_["k"] == "assign" and st_["place"]["l"] == xl and not st_["place"]["p"]:
+                        last = st_["rv"]
+                return last is not None and last["k"] == "aggregate" and str(last.get("variant")) == want
+            if arm and (sb == arm[0] or b.dominates(arm[0], sb)) and \
+                    all(p_ == s_ or builds_variant(p_) for p_ in b.preds(arm[0])):  # (jump threading sends known variants straight to the arm)
+                # x is not reassigned between the branch and the result
+                reass = [bi_ for bi_ in b.live_blocks() for st_ in b.blocks[bi_]["stmts"]
+                         if st_["k"] == "assign" and st_["place"]["l"] == xl and not st_["place"]["p"]
+                         and (bi_ == arm[0] or b.dominates(arm[0], bi_))]
+                if not reass:
+                    return True
         return False
     for fb in false_blocks:
         bad = [(sb, ln) for (sb, ln) in stores if (sb == fb or fb in reach_strict(b, sb) or
                                                    (fb in merged_false and sb in reach_strict(b, fb)))
-               and not guarded_true(sb, fb)]
+               and not guarded_true(sb, fb) and not on_some_edge_of_result(sb, fb)]
         R.check("R-NOWRITE-ON-REJECT", b.label(), not bad,
                 construct="rejecting exit reached after a write through self",
                 where="%s (rejecting block bb%d)" % (b.where(), fb),
@@ -1049,6 +1095,15 @@ def has_next_of(t, key, fld):
     return False
 
 
+def walk_(t):
+    if isinstance(t, tuple):
+        yield t
+        for x in t:
+            if isinstance(x, tuple):
+                for y in walk_(x):
+                    yield y
+
+
 def r_stride_iter(F, R, cat=None):
     """StrideIter::next yields strided.index(self.index) and advances self.index by one after the
     read; Stride::iter starts at 0 with a copy of the stride"""
@@ -1063,11 +1118,77 @@ def r_stride_iter(F, R, cat=None):
         str_place = ("place", b.key, ("arg", 1), ("f:strided",))
         somes = [nobb(t) for t in ret_alts(c) if t != NONE]
         want = ("agg", "Option::Some", (("call", ("Stride", "index"), (str_place, idx_place), ()),), ())
+        hand_written = bool(somes) and not any(nd and nd[0] == "call" and nd[1] == ("Stride", "index") for t in somes for nd in walk_(t))
         if not somes:
             R.undecided_site("R-ITER", b.label(), "yielded value not recognised")
+        elif hand_written:
+            # next() computes the element itself, per variant, instead of asking Stride::index.
+            # The element at position i is 0 (Zero), stride*i (Striding, and Saturated below its
+            # step count) or stride*(steps-1) (the saturated tail): a yielded product of the
+            # stride with another field of the variant *as it is* (stride*steps) is none of them --
+            # positive evidence; any other arithmetic is value-level
+            def fld(t, k=None):
+                return t[0] == "place" and t[2] == ("arg", 1) and len(t[3]) == 3 and t[3][0] == "f:strided" and \
+                    t[3][1].startswith("v:") and (k is None or t[3][2] == "f:%d" % k)
+            bad_forms, odd = [], []
+            for t in somes:
+                v = t[2][0] if t[0] == "agg" and t[1] == "Option::Some" and t[2] else t
+                if v == ("const", "0"):
+                    continue
+                if v[0] == "bin" and v[1] == "Mul" and any(fld(x, 0) for x in v[2:4]):
+                    other = v[3] if fld(v[2], 0) else v[2]
+                    if other == idx_place:
+                        continue
+                    if other[0] == "bin" and other[1] == "Sub" and fld(other[2], 1) and other[3] == ("const", "1"):
+                        continue
+                    if fld(other):
+                        bad_forms.append(show(v))
+                        continue
+                odd.append(show(v)[:50])
+            if bad_forms:
+                R.check("R-ITER", b.label(), False, construct="yields the stride's element at the cursor",
+                        where=b.where(), detail="next() yields %s: the product of the stride with a stored count is not an element of "
+                        "the progression (positions below the step count read stride*position, the saturated tail stride*(steps-1))" % bad_forms)
+            elif odd:
+                R.undecided_site("R-ITER", b.label(), "next() does not go through Stride::index (yields %s): that these are the "
+                                 "stride's elements at the cursor is not decided" % odd[:4])
+            else:
+                R.check("R-ITER", b.label(), True, construct="yields the stride's element at the cursor", where=b.where(),
+                        detail="hand-written per variant: 0, stride*cursor, stride*(steps-1)")
         else:
             R.check("R-ITER", b.label(), all(t == want for t in somes), construct="yields strided.index(self.index)",
                     where=b.where(), detail="yields %s" % [show(t) for t in somes])
+        # a running element advanced by the stride must not be advanced past the last element:
+        # stride*count (the element *after* the last) is exactly the product Stride::push only ever
+        # forms with checked_mul -- for a long stride it does not exist, and an eager
+        # `current += stride` after yielding the last element overflows
+        if hand_written:
+            for bi_ in sorted(b.live_blocks()):
+                t_ = b.term(bi_)
+                if not (t_["k"] == "assert" and t_.get("msg") == "overflow" and t_["op"] == "Add"):
+                    continue
+                ops_ = [operand_tree(c, t_["a"]), operand_tree(c, t_["b"])]
+
+                def stride_fld(x):
+                    return x[0] == "place" and x[2] == ("arg", 1) and len(x[3]) == 3 and x[3][0] == "f:strided" and x[3][2] == "f:0"
+                if not any(stride_fld(x) for x in ops_):
+                    continue
+                bounded = False
+                for f in facts_at(c, bi_):
+                    if f[0] in ("Lt", "Le", "Gt", "Ge") and any(isinstance(x, tuple) and any(
+                            nd == idx_place for nd in walk_(x)) for x in f[1:3]) and any(
+                            isinstance(x, tuple) and any(nd and nd[0] == "place" and nd[2] == ("arg", 1) and nd[3][:1] == ("f:strided",)
+                                                         and len(nd[3]) == 3 and nd[3][2] in ("f:1", "f:2") for nd in walk_(x)) for x in f[1:3]):
+                        bounded = True
+                if bounded:
+                    R.undecided_site("R-ITER", b.label(), "a running element is advanced by the stride at %s:%s under a bound on the cursor: "
+                                     "whether the bound stops before the last element is not decided" % (b.file, t_["line"]))
+                else:
+                    R.check("R-OVF", b.label(), False, construct="the running element is not advanced past the last element",
+                            where="%s:%s" % (b.file, t_["line"]),
+                            detail="%s is computed with overflow checks on every step, also after the last element was yielded: for a "
+                                   "stride whose next multiple does not fit in usize (accepted by push through checked_mul) iteration "
+                                   "panics / wraps" % show(("bin", "Add", ops_[0], ops_[1]))[:80])
         # increment by one, after the read, in the same context as the read
         reads = [e for e in effs if e.tag == ("Stride", "index")]
         incs = []
@@ -1084,7 +1205,7 @@ def r_stride_iter(F, R, cat=None):
                     else:
                         others.append(show(val))
         ok = bool(incs) and not others
-        for e in incs:
+        for e in ([] if hand_written else incs):
             same = [r_ for r_ in reads if r_.ctx is e.ctx]
             if not same or not any(e.bb == r_.bb or e.bb in reach_strict(e.ctx.body, r_.bb) for r_ in same):
                 ok = False
